@@ -415,6 +415,14 @@ def evaluate(case, rec):
         return
     carrier = case['carrier']
     res = None
+    if carrier == 'inside' and cert is None and label == 'text-cleartext' and m.sig == t.sig:
+        # inside the cleartext framework the signed text is the 7.1 canonical form (trailing blanks / CR at line ends are
+        # not part of it): a mutation that leaves that form unchanged is not semantic for this carrier
+        try:
+            if armor.cleartext_signed_octets(m.doc.decode('utf-8')) == armor.cleartext_signed_octets(t.doc.decode('utf-8')):
+                carrier = 'detached'
+        except UnicodeDecodeError:
+            carrier = 'detached'
     if carrier == 'inside' and cert is None:
         res = _inside_carrier(t, m, label)
         if res is None:
